@@ -140,6 +140,8 @@ class Run:
         """[(origin key, method, target path?query, body bytes, header list[(lower name, value)], node index)]"""
         out = []
         for e in self.world.origin_log():
+            if e.get("faulted"):
+                continue  # the server answered this attempt with a fault: the client retries the same request
             t = e["target"]
             if e["route"] == "forward" or "://" in t.split("?")[0]:
                 t = _target_of_absolute(t)
